@@ -128,8 +128,11 @@ def run(chk):
                             return dict(f, key="theorem:" + name, found_by="harness/corr/c07_pairs.cpp on the real members of the pair")
             return None
 
-        for i, mod in enumerate(MODULES):
-            chk.check_theorems(mod, required=REQUIRED[mod], extra_targets=MODULES if i == 0 else (), search=search)
+        # build the three theorem files in one (parallel) lake invocation, then audit each on its own so that a failure
+        # in one file is attributed to that file's theorems only
+        lib.lake_build(MODULES)
+        for mod in MODULES:
+            chk.check_theorems(mod, required=REQUIRED[mod], search=search)
         for d in [d for d in index if d["name"].endswith("T") or "Exc" in d["name"]][:6]:
             chk.sample({"entry": d["name"], "paths": d.get("paths")})
 
